@@ -63,6 +63,70 @@ def run_real(gen, ops):
         return SafeApi(gen).run(ops)
 
 
+def run_interleaved(gen, ops_a, ops_b):
+    """two client objects of one generation alive in the same process (two consoles in one home), their scripts executed alternately,
+    one op at a time -> (outputs of A, outputs of B), each in the format of run_real"""
+    import asyncio
+    logging.disable(logging.CRITICAL)
+    apis = [SafeApi(gen), SafeApi(gen)]
+    scripts = [list(ops_a), list(ops_b)]
+    results = [[], []]
+
+    async def one(api, line):
+        api.out.clear()
+        try:
+            await api.op(line.split())
+        except KeyError:
+            api.out.append("RESULT KeyError")
+        notes = sorted(x for x in api.out if x.startswith("NOTIFY"))
+        return [x for x in api.out if not x.startswith("NOTIFY")] + notes
+
+    with warnings.catch_warnings():
+        warnings.simplefilter("ignore")
+        try:
+            for i in range(max(len(scripts[0]), len(scripts[1]))):
+                for k in (0, 1):
+                    if i < len(scripts[k]):
+                        api = apis[k]
+                        asyncio.set_event_loop(api.loop)
+                        results[k].append(api.loop.run_until_complete(one(api, scripts[k][i])))
+        finally:
+            for api in apis:
+                asyncio.set_event_loop(api.loop)
+                try:
+                    if api.init_task and not api.init_task.done():
+                        api.init_task.cancel()
+                    api.loop.run_until_complete(api.at.shutdown())
+                except Exception:  # noqa: BLE001
+                    pass
+                api.loop.close()
+            asyncio.set_event_loop(None)
+    return results[0], results[1]
+
+
+def two_objects(ctx, thorough):
+    """what one client object shows does not depend on another client object of the same generation living in the same process:
+    each script's outputs, run alternately with another installation's script, equal its outputs when run alone"""
+    rng = ctx.rng
+    for gen in (4, 5):
+        for k in range(12 if thorough else 4):
+            ia, fa = random_script(rng, gen, 30)
+            ib, fb = random_script(rng, gen, 30)
+            oa = C.handshake(gen, ia) + ["view"] + with_views(fa)
+            ob = C.handshake(gen, ib) + ["view"] + with_views(fb)
+            solo_a, solo_b = run_real(gen, oa), run_real(gen, ob)
+            both_a, both_b = run_interleaved(gen, oa, ob)
+            ctx.case(("two-objects", gen, k))
+            for name, ops, solo, both in (("first", oa, solo_a, both_a), ("second", ob, solo_b, both_b)):
+                diff = next((i for i, (x, y) in enumerate(zip(solo, both)) if x != y), None)
+                ctx.count("two-objects:%s" % ("same" if diff is None else "differs"))
+                if diff is not None:
+                    ctx.violation("C10:%d:two-objects" % gen, "AirTouch %d: two client objects in one process, scripts run alternately: the %s object's output for op %d `%s` is %s, "
+                                  "run alone it is %s" % (gen, name, diff, ops[diff][:80], str(both[diff])[:300], str(solo[diff])[:300]), kind="history", level="two-objects",
+                                  gen=gen, ops_a=oa, ops_b=ob, implementation_output=str(both[diff])[:600], spec_verdict=str(solo[diff])[:600])
+                    return
+
+
 def judge(gen, ops, readings, base):
     """run `ops` on the real object and on the reference -> (initialised ok, [(path, op index, expected, got)], counts)
     `readings`: op text -> oracle answer; `base`: number of handshake ops (frames before it are not judged for exceptions)"""
@@ -439,6 +503,7 @@ def run(ctx, deep=False):
     if jobs:
         gen, label, ops, base = jobs[0]
         ctx.sample({"script": label, "gen": gen, "ops": ops[base:base + 6]})
+    two_objects(ctx, thorough)
     tie(ctx, "C10", 400 if thorough else 40)
 
 
@@ -456,6 +521,16 @@ def search(ctx):
 
 
 def replay(ctx, data):
+    if data.get("level") == "two-objects":
+        gen, oa, ob = data["gen"], data["ops_a"], data["ops_b"]
+        solo = (run_real(gen, oa), run_real(gen, ob))
+        both = run_interleaved(gen, oa, ob)
+        for name, s1, s2, ops in (("first", solo[0], both[0], oa), ("second", solo[1], both[1], ob)):
+            d = next((i for i, (x, y) in enumerate(zip(s1, s2)) if x != y), None)
+            print("%s object: %s" % (name, "same outputs alone and side by side" if d is None else "op %d `%s`: side by side %s, alone %s" % (d, ops[d][:80], s2[d], s1[d])))
+            if d is not None:
+                return 1
+        return 0
     gen, ops, base, path = data["gen"], data["ops"], data.get("base", 0), data.get("path")
     cache = {}
     reqs = apiref.spec_requests(gen, ops)
